@@ -7,7 +7,7 @@ package main
 // terminate are given an instruction budget where possible (budgetctx.go). The watchdogs here are for what an
 // instruction count does not see (dead-locks, host code, child processes): they declare a hang after `base` only when
 // the 1-minute load average says the cores were NOT oversubscribed during the last `base`; on an oversubscribed machine
-// they keep waiting, up to hangCap × base. A real hang is therefore still reported, only later.
+// they keep waiting, up to hangCap × base (until a first hang has been confirmed, see confirmedHangs). A real hang is therefore still reported, only later.
 
 import (
 	"context"
@@ -20,7 +20,12 @@ import (
 	"time"
 )
 
-const hangCap = 10
+const hangCap = 4
+
+// confirmedHangs: cases whose watchdog fired on every attempt (safeExec). After the first one the check is failing anyway:
+// watchdogs then fire after `base` whatever the load and cases are not re-executed; after eight, `base` shrinks to a
+// tenth — a change to the code under test that makes many cases hang must not make the check run for hours.
+var confirmedHangs int64
 
 var (
 	loadMu       sync.Mutex
@@ -52,6 +57,12 @@ func machineOversubscribed() bool {
 
 // onHang calls f once when the unit of work started now must be considered hung (see above); stop releases it.
 func onHang(base time.Duration, capFactor int, f func()) (stop func()) {
+	if n := atomic.LoadInt64(&confirmedHangs); n > 0 {
+		capFactor = 1
+		if n >= 8 && base > 3*time.Second {
+			base /= 10
+		}
+	}
 	start := time.Now()
 	var mu sync.Mutex
 	var t *time.Timer
